@@ -198,3 +198,24 @@ Definition W_MIXED : list cop :=
    CSubscribe (S_ "x"); CUnsubscribe (S_ "x")].
 
 Definition all_points (h : list cop) : list nat := seq 0 (S (length (all_steps absent h))).
+
+(** ---- reopening never touches the rows of an initialised store ------------------------- *)
+
+(** At every crash point (and at every clean stop) of every workload: if the
+    mailbox table holds a row, the next GetUserDB leaves mailboxes (names,
+    UIDVALIDITY, UIDNEXT), links, messages, subscriptions and deliveries exactly
+    as they are — in particular a default mailbox the user deleted or renamed
+    away does not come back. *)
+Lemma reopen_keeps_rows h k t1 t2 t3 t4 t5 :
+  let c := crash_at absent h k in
+  mboxes (d_st c) <> [] ->
+  let d' := fst (big c (COpen t1 t2 t3 t4 t5)) in
+  d_st d' = d_st c /\ d_msgs d' = d_msgs c /\ d_subs d' = d_subs c /\ d_deliv d' = d_deliv c
+  /\ run_steps c (micro c (COpen t1 t2 t3 t4 t5)) = d'.
+Proof.
+  intros c Hne d'. pose proof (crash_MB h k absent BI_absent) as M. fold c in M.
+  assert (F : d_file c = true).
+  { destruct (d_file c) eqn:Fd; [reflexivity|]. exfalso. apply Hne. exact (mb_nofile c M Fd). }
+  unfold d'. cbn [big fst micro]. rewrite open_refines. unfold opened, file_of. rewrite F.
+  destruct (mboxes (d_st c)) eqn:Mb; [contradiction|]. cbn. repeat split.
+Qed.
